@@ -14,6 +14,8 @@
     c16graph <arch> <ctx> <batch> <numParallel> <kvct 0=f16|1=q8_0|2=q4_0> <blocks> <emb> <heads> <headsKV> <klen|-> <vlen|->
              <vocab> <ffn_gate_exps size|-> <ff> <ffn_gate.0 Shape[1]|-> <ncross> {i}* <ropeFreqs> <sliding> <qkvBias|->
       -> kv=<a,b,..|-> gp=<partialOffload> gf=<fullOffload>                 (GGML.GraphSize)
+    c16cpu <OLLAMA_NUM_PARALLEL> <mllama 0|1> <embed 0|1> <defaultParallel> <n> {p <common>}* <free> <min> <nrunners>
+      -> load ids=0 free=<free> p=<numParallel> | evict                      (the CPU branch of Scheduler.processPending)
     c16proj <mllama 0|1> <n> {tensor size}* <image> <patch> <channels> <tiles> <emb> <heads> <class_embd 0|1>
       -> w=<weights> g=<graphSize> | panic                                   (llm.projectorMemoryRequirements)
     c16vision <mllama 0|1> <gemma3|mistral3 0|1> <vision.block_count> <n> {size of the v / v.* tensors}* <image> ... <class_embd 0|1>
@@ -208,6 +210,29 @@ def handle (toks : List String) : Option String :=
                          ffnGate1 := g1, cross := cross, ropeFreqs := rope, sliding := sliding, qkvBias := qb }
       let r := graphSize m ctx batch p kvct
       pure s!"kv={commaOrDash r.1} gp={r.2.1} gf={r.2.2}") rest
+  | "c16cpu" :: rest =>
+    runTP (do
+      let np0 ← int
+      let mllama ← nat
+      let embed ← nat
+      let dp ← nat
+      let commons ← listOf pTry
+      let free ← nat
+      let mn ← nat
+      let nr ← nat
+      let dflt : Inp := match commons with
+        | (_, c) :: _ => c
+        | [] => { lib := .other, gpus := [], overhead := 0, projs := [], vision := (0, 0), blk0 := none,
+                  blocks := [], graphPartial := 0, graphFull := 0, gqa := 0, outNorm := none,
+                  output := none, tokenEmbd := none, numGPU := 0 }
+      let commonOf : Nat → Inp := fun p => match commons.lookup p with
+        | some c => c
+        | none => dflt
+      let np := effParallel np0 (mllama != 0) (embed != 0)
+      pure (match cpuDecision commonOf np dp ⟨0, 0, .cpu, ⟨free, mn⟩⟩ nr with
+        | .load _ l p => s!"load ids={showIds l} free={commaOrDash (l.map fun (x : FGpu) => x.gpu.free)} p={p}"
+        | .evict => "evict"
+        | .delay => "delay")) rest
   | "c16proj" :: rest =>
     runTP (do
       let ml ← nat
